@@ -22,3 +22,25 @@ Proof. intros Hp. unfold varimax_target_real, varimax_update_src. cbv zeta.
 
 Lemma varimax_iteration_shape : varimax_next_is_U_times_VT = true /\ varimax_starts_from_identity = true.
 Proof. split; reflexivity. Qed.
+
+(* Kaiser normalisation: every row is divided by (h + eps) before the iteration and multiplied by (h + eps) after it (Gen/T5rot.v:
+   kaiser_norm / kaiser_denorm, promax_norm / promax_denorm, translated from the source). The pair is the identity on every row, whatever
+   the size of h - the rotated loadings are the loadings times the rotation matrix exactly, in any physical units. *)
+Section Kaiser.
+Context {F : Type} (K : Ops F) (FL : FieldLaws K).
+Add Field Ffkaiser : (FL_field K FL).
+Lemma kaiser_pair_is_identity (h eps x : F) : fadd K h eps <> f0 K ->
+  fmul K (kaiser_denorm K h eps) (fmul K (kaiser_norm K h eps) x) = x /\
+  fmul K (promax_denorm K h eps) (fmul K (promax_norm K h eps) x) = x.
+Proof. intros Hne. unfold kaiser_denorm, kaiser_norm, promax_denorm, promax_norm. rewrite (FL_ofZ_1 K FL).
+  split; field; exact Hne. Qed.
+End Kaiser.
+
+(* the variant that multiplies back with h alone (the source up to the repair of this finding) is not the identity: a row of communality
+   h comes back shrunk by h / (h + eps), a relative error eps / h that grows as the units of the data shrink *)
+Definition kaiser_denorm_old (h eps : R) : R := h.
+Lemma kaiser_old_pair_refuted : exists h eps x : R, (h + eps <> 0 /\ kaiser_denorm_old h eps * (kaiser_norm OR h eps * x) <> x)%R.
+Proof. exists 1%R, 1%R, 2%R. unfold kaiser_denorm_old, kaiser_norm. cbn [fdiv fadd fofZ OR]. split; [lra|]. intro H. lra. Qed.
+Lemma kaiser_old_relative_error (h eps x : R) : (0 < h -> 0 < eps ->
+  x - kaiser_denorm_old h eps * (kaiser_norm OR h eps * x) = x * (eps / (h + eps)))%R.
+Proof. intros Hh He. unfold kaiser_denorm_old, kaiser_norm. cbn [fdiv fadd fofZ OR]. field. lra. Qed.
